@@ -387,8 +387,18 @@ pub fn replay_file(rf: &ReplayFile, a: &Args) -> (Vec<Violation>, Vec<String>) {
                 let rs = mix3(p.verif_seed, p.salt, i);
                 let s = gen_scenario(rs, &pool);
                 let rp = c18::reference_phase(&s);
-                let scheds = c18::schedules_for(rs, 1, 64);
-                let _ = c18::execute(&rp, &scheds[0], false);
+                // the same number of executions as the worker made, so that whatever counts
+                // parses is in the same state
+                let n = a.u64("prefix-scheds", 4) as usize;
+                let mut est = 64u32;
+                let mut scheds = c18::schedules_for(rs, n, est);
+                for si in 0..n {
+                    let (_, st) = c18::execute(&rp, &scheds[si], false);
+                    if si == 0 {
+                        est = (st.choices.len() as u32).max(8);
+                        scheds = c18::schedules_for(rs, n, est);
+                    }
+                }
             }
         }
     }
@@ -409,12 +419,23 @@ fn main() {
     let a = Args::parse();
     let cmd = a.pos.first().cloned().unwrap_or_default();
     init_process();
-    let code = match cmd.as_str() {
-        "c18" => c18_worker(&a),
-        "c11" => c11::worker(&a),
-        "replay" => replay(&a),
-        "minimise" => minimise::run(&a),
-        "distinct" => distinct(&a),
+    // a panic that escapes the guarded sections is a harness error: say so (the silent
+    // hook swallowed the message) and exit 2
+    let code = std::panic::catch_unwind(std::panic::AssertUnwindSafe(|| dispatch(&cmd, &a))).unwrap_or_else(|_| {
+        eprintln!("cooksim: harness error: uncaught panic: {:?}", sim::take_last_panic());
+        2
+    });
+    std::process::exit(code);
+}
+
+fn dispatch(cmd: &str, a: &Args) -> i32 {
+    let a = a;
+    match cmd {
+        "c18" => c18_worker(a),
+        "c11" => c11::worker(a),
+        "replay" => replay(a),
+        "minimise" => minimise::run(a),
+        "distinct" => distinct(a),
         "realthreads" => {
             // regenerate the scenario of a run index and execute it on real OS threads
             let pool = Pool::load(&a.str("repo", "/repo"));
@@ -428,6 +449,5 @@ fn main() {
             if v.is_empty() { 0 } else { 1 }
         }
         _ => die("usage: cooksim c18|c11|replay|minimise ..."),
-    };
-    std::process::exit(code);
+    }
 }
